@@ -108,6 +108,7 @@ func ioFaultPlan(tp *simrt.Tape, fc *ioFaultCfg, agentPid func() int) (func(op *
 			name = "?script"
 		}
 		touched[name] = true
+		touched["!"+name] = true // an injected error (as opposed to a working directory that is simply not there)
 		errno := syscall.ENOSPC
 		switch class {
 		case "pipe-open":
@@ -308,6 +309,34 @@ func (c *stepCheck) checkIOFault(hung bool) {
 		}
 	}
 
+	// ---- a step whose working directory does not exist (and whose files met no injected error): every
+	// attempt fails while its executor is created, so it uses up its retries and ends failed, whatever else
+	// happens in the run (C02: the state its own outcome dictates; C03: limit+1 attempts, limit recorded)
+	if d.TimeoutSec == 0 && c.final.Status.String() != "canceled" {
+		setupAttempts := map[string]int{}
+		for _, e := range c.res.Events {
+			if e.Kind == "attempt_failed_in_setup" && e.B == "missing-dir" {
+				setupAttempts[e.A]++
+			}
+		}
+		for i := range d.Steps {
+			st := &d.Steps[i]
+			n := setupAttempts[st.Name]
+			if st.Dir == "" || n == 0 || touched["!"+st.Name] || len(runsBy[st.Name]) > 0 {
+				continue
+			}
+			bump(c.out, "missing_dir_step_launched")
+			if label[st.Name] != "failed" {
+				c.viol("C02", "wrong-label", "iofault/missing-dir/"+strings.ReplaceAll(label[st.Name], " ", "-"), "step %s has no working directory: each of its %d attempts failed before a process was made, yet it ends %q, not failed", st.Name, n, label[st.Name])
+			}
+			if want := st.RetryLimit + 1; n != want {
+				c.viol("C03", "attempt-count", "iofault/missing-dir/"+tooFewMany(n, want), "step %s (retry limit %d, no working directory) was attempted %d times, expected %d", st.Name, st.RetryLimit, n, want)
+			} else if retries[st.Name] != st.RetryLimit {
+				c.viol("C03", "retry-count-record", fmt.Sprintf("iofault/missing-dir/recorded-%d-made-%d", retries[st.Name], n-1), "step %s made %d attempts but its record says %d retries", st.Name, n, retries[st.Name])
+			}
+		}
+	}
+
 	// ---- containment (C02): a step downstream of a dependency that is finally failed (without
 	// continueOn.failure), canceled, or skipped (without continueOn.skipped) has not been executed
 	for i := range d.Steps {
@@ -464,4 +493,11 @@ func sortedKeysBool(m map[string]bool) []string {
 	}
 	sort.Strings(ks)
 	return ks
+}
+
+func tooFewMany(got, want int) string {
+	if got < want {
+		return "too-few"
+	}
+	return "too-many"
 }
